@@ -42,9 +42,12 @@ def shards(tier, seed):
     return out
 
 
-def measure(x, fs, L, P, order, freq):
+def measure(x, fs, L, P, order, freq, backend="numba", second=None):
+    """Response of channel 1 at `freq`; with `second` the record is analysed as the first channel
+    of a two-channel input (the side-lobe statement is about every analysis the sinusoid enters)."""
     from speckit.analysis import SpectrumAnalyzer
-    an = SpectrumAnalyzer(x, fs, win="kaiser", psll=P, order=order, olap=0.5, backend="numba")
+    data = x if second is None else second
+    an = SpectrumAnalyzer(data, fs, win="kaiser", psll=P, order=order, olap=0.5, backend=backend)
     r = an.compute_single_bin(freq, L=L)
     return float(r.XX[0]), r
 
@@ -96,10 +99,19 @@ def one_sinusoid(rec, seedt, tier, fixed=None):
             "L": L, "P": round(P, 3), "b0": b0, "order": order, "K": K, "tier": tier}
     if fixed is not None:
         desc.update(b=fixed["b"], phase=phase)
+    backend, second = "numba", None
+    if fixed is None:
+        backend = str(rng.choice(["numba", "numba", "numpy"]))
+        if rng.random() < 0.3:
+            # two-channel input held in ONE caller-owned buffer that every evaluation re-uses
+            second = np.ascontiguousarray(np.vstack([x, rng.standard_normal(N)]))
+    desc["backend"] = backend
+    desc["two_channel"] = second is not None
     rec.case(desc, nontrivial=True)
     rec.count("sinusoids")
+    rec.count(f"sinusoids[{backend}{'+2ch' if second is not None else ''}]")
     try:
-        p0, _ = measure(x, fs, L, P, order, b0 * fs / L)
+        p0, _ = measure(x, fs, L, P, order, b0 * fs / L, backend, second)
     except Exception as e:
         rec.violation("single-bin-raises", f"{type(e).__name__}: {e}")
         return
@@ -116,7 +128,7 @@ def one_sinusoid(rec, seedt, tier, fixed=None):
             rec.count("skipped_float64_floor")
             continue
         try:
-            pb, _ = measure(x, fs, L, P, order, b * fs / L)
+            pb, _ = measure(x, fs, L, P, order, b * fs / L, backend, second)
         except Exception as e:
             rec.violation("single-bin-raises", f"{type(e).__name__}: {e}")
             continue
